@@ -377,7 +377,7 @@ PROPS['C02'] = dict(
 )
 # C04: the receive-path mode joins the packet-half mode of the existing entry
 def is_recv_line(inp):
-    return inp.split(' ', 1)[0] in ('recv', 'tcpsock', 'probe', 'sockerr')
+    return inp.split(' ', 1)[0] in ('recv', 'tcpsock', 'probe', 'sockerr', 'recvseq')
 
 
 _c04_pkt = PROPS['C04']
@@ -512,4 +512,26 @@ PROPS['C09'] = dict(
     compare=lambda inp, a, b: compare_recv(inp, a, b) if is_recv_line(inp) else _c09b['compare'](inp, a, b),
     nontrivial=lambda inp, o: (inp.startswith('sockerr ') or recv_decoded(inp, o)) if is_recv_line(inp) else _c09b['nontrivial'](inp, o),
     rule=_c09b['rule'] + ' || receive-socket outcomes through the real Channel::recv_probe for every cell: select error, read error, spurious wake-up, timeout (mode recv, sockerr lines); oracle: a socket error comes back as an error value',
+)
+
+
+# ---- C15: the bound on the number of flows must survive Tracer::clear(): the controlled runs of mode c20 (rounds applied through
+# the real handler, clear, rounds again) carry a C15 oracle
+_c15 = PROPS['C15']
+PROPS['C15'] = dict(
+    _c15, modes=_c15['modes'] + [('hcore', 'c20')],
+    compare=lambda inp, a, b: compare_c20(inp, a, b) if inp.startswith('c20') else _c15['compare'](inp, a, b),
+    nontrivial=lambda inp, o: PROPS['C20']['nontrivial'](inp, o) if inp.startswith('c20') else _c15['nontrivial'](inp, o),
+    rule=_c15['rule'] + ' || after Tracer::clear(): mode c20 (real handler, clear at rest, the same rounds again): the number of flows stays within max_flows',
+)
+
+
+# ---- C19: the expected checksum is recomputed by the receive path (Ipv4::calc_udp_checksum): the multi-datagram sequences of mode
+# recv (several rounds of unrewritten Dublin/IPv4 probes through ONE channel, real dispatch bytes) carry a C19 oracle
+_c19 = PROPS['C19']
+PROPS['C19'] = dict(
+    _c19, modes=_c19['modes'] + [('hcore', 'recv')],
+    compare=lambda inp, a, b: compare_recv(inp, a, b) if is_recv_line(inp) else _c19['compare'](inp, a, b),
+    nontrivial=lambda inp, o: (inp.startswith('recvseq ') or recv_decoded(inp, o)) if is_recv_line(inp) else _c19['nontrivial'](inp, o),
+    rule=_c19['rule'] + ' || byte level: mode recv, recvseq lines - four rounds of two probes each, built by the real dispatch, quoted by a conforming router and delivered to ONE Channel (the non-fixed port changes per round); oracle for Dublin/IPv4: expected checksum = quoted checksum when nothing rewrote the datagram',
 )
